@@ -187,7 +187,7 @@ def check_many(pid: str, harness_path: str, configs: List[Dict[str, Any]], twin_
             h, t = results[(tag, "h_" + name)], results[(tag, "t_" + name)]
             r = dict(tag=tag, name=name, verdict=h["verdict"], msg=h["msg"], args=h["args"], wall_s=h["wall_s"],
                      twin_verdict=t["verdict"], twin_ok=(t["verdict"] == COUNTEREXAMPLE),
-                     twin_wall_s=t["wall_s"], harness=gen, env=cfg.get("env") or {})
+                     twin_wall_s=t["wall_s"], harness=gen, env=cfg.get("env") or {}, allow_vacuous=bool(cfg.get("allow_vacuous")))
             if h["verdict"] == COUNTEREXAMPLE:
                 if h["args"] is None:
                     r["reproduced"] = False
@@ -211,6 +211,10 @@ def record(run, results: List[Dict[str, Any]], prefix: str, keyfn, bounds: str =
         eng = "crosshair"
         detail = dict(bounds=bounds, twin=r["twin_verdict"], wall_s=r["wall_s"])
         if r["twin_verdict"] in (CONFIRMED, NO_PRE):
+            if r.get("allow_vacuous") and r["twin_verdict"] == NO_PRE and r["verdict"] in (CONFIRMED, NO_PRE):
+                # a partition of a larger input space that happens to contain no admissible input
+                run.ok(name, eng, solver_s=r["wall_s"], verdict_text="empty partition (no input meets the precondition)", **detail)
+                continue
             run.harness_error("vacuous harness %s: reachability twin verdict %s" % (name, r["twin_verdict"]))
             continue
         if r["verdict"] == ERROR:
